@@ -450,7 +450,10 @@ impl<'a, L: chain::Listen + ?Sized> ChainNotifier<'a, L> {
 		&self, chain_poller: &mut P, header: &ValidatedBlockHeader,
 	) -> BlockSourceResult<ValidatedBlockHeader> {
 		match self.header_cache.look_up(&header.header.prev_blockhash) {
-			Some(prev_header) => Ok(*prev_header),
+			Some(prev_header) => {
+				chain_poller.check_builds_on(header, prev_header)?;
+				Ok(*prev_header)
+			},
 			None => chain_poller.look_up_previous_header(header).await,
 		}
 	}
